@@ -128,6 +128,9 @@ func icMutexLock(ex *Exec, fn *ssa.Function, a []Value) Value {
 	}
 	c.V = mkConst(32, 1)
 	ex.mutexOps++
+	if isRaftMu(c) {
+		ex.muHeld++
+	}
 	return nil
 }
 
@@ -137,7 +140,20 @@ func icMutexUnlock(ex *Exec, fn *ssa.Function, a []Value) Value {
 		ex.end("PANIC", "unlock-of-unlocked-mutex@"+ex.whereRepo())
 	}
 	c.V = mkConst(32, 0)
+	if isRaftMu(c) {
+		ex.muHeld--
+	}
 	return nil
+}
+
+// isRaftMu reports whether the mutex state cell belongs to the mu field of a Raft struct.
+func isRaftMu(state *Cell) bool {
+	mu := state.Parent
+	if mu == nil || mu.Parent == nil {
+		return false
+	}
+	n, ok := mu.Parent.T.(*types.Named)
+	return ok && n.Obj().Name() == "Raft"
 }
 
 func condLField(ex *Exec, c *Cell) *Cell {
